@@ -170,9 +170,5 @@ def replay(ctx, payload):
 CLAIM = {'note': "Trusted: Coq kernel + vm_compute; harness; typing's Union/==/`is` semantics as modelled; live "
          '__mro__/__bases__ tables.',
  'ref': '4/C07',
- 'technique': 'Coq model + theorems, vm_compute differential correspondence',
- 'text': 'Coq model of the generic traversal and all shipped rewriters (Model/Rewrite.v) with '
-         'DEFAULT_REWRITER regenerated from source; theorems default_chain_modelled, noop_identity '
-         '(monotonicity development pending); differential check over ~22k (rewriter chain, type) cases with '
-         'Coq-evaluated verdicts: no exception, no witness value lost (tight reading in, annotation reading '
-         'out), change only with trigger, model = implementation.'}
+ 'technique': 'Coq proof by nested induction over types (monotonicity of every rewriter and of chains) + vm_compute differential correspondence',
+ 'text': 'Coq model of the generic traversal and all shipped rewriters (Model/Rewrite.v) with DEFAULT_REWRITER regenerated from source; theorems for every class table with closed MROs, every well-formed type and every value: rw_never_narrows (each rewriter: values admitted by the input under the tight reading are admitted by the output), rw_never_narrows_annotation / _tight (the sharper per-reading statements), chain_never_narrows (every chain in which RemoveEmptyContainers never follows a RewriteLargeUnion, hence all such pairs), default_chain_never_narrows (the chain the source declares today), rw_well_formed; totality holds by construction of the model. Differential check over ~22k (rewriter chain, type) cases with Coq-evaluated verdicts: no exception, no witness value lost, change only with trigger, model = implementation.'}
